@@ -16,7 +16,6 @@ import (
 	"crypto/sha256"
 	"errors"
 	"fmt"
-	"sort"
 	"strings"
 	"testing"
 
@@ -91,8 +90,10 @@ func variant(c cid.Cid) int {
 }
 
 func (w *world) cidCoq(c cid.Cid) string {
-	return fmt.Sprintf("(%d%%N, %d%%N)", variant(c), w.mh(c))
+	return fmt.Sprintf("(cC %d %d)", variant(c), w.mh(c))
 }
+
+func (w *world) cidArgs(c cid.Cid) string { return fmt.Sprintf("%d %d", variant(c), w.mh(c)) }
 
 func (w *world) add(n *mnode) *mnode {
 	if old, ok := w.byCid[n.c.KeyString()]; ok {
@@ -115,7 +116,7 @@ func (w *world) graphCoq() string {
 		if n.open {
 			links = "(Some " + vh.ListOf(n.links, w.cidCoq) + ")"
 		}
-		items[i] = fmt.Sprintf("(%s, mkNode %s %s %s %s %s)", w.cidCoq(n.c), n.codec, ufs, vh.Bool(n.ident), n.loc, links)
+		items[i] = fmt.Sprintf("(cG %s (mkNode %s %s %s %s %s))", w.cidArgs(n.c), n.codec, ufs, vh.Bool(n.ident), n.loc, links)
 	}
 	return vh.List(items)
 }
@@ -613,14 +614,14 @@ func runCase(t *testing.T, e *vh.Env, st *vh.Stats, w *world, tk string, specs [
 			}
 		}
 		total += len(o.emitted)
-		obsCoq = append(obsCoq, "("+vh.ListOf(o.emitted, w.cidCoq)+", "+o.res+")")
+		obsCoq = append(obsCoq, "(cO "+vh.ListOf(o.emitted, w.cidCoq)+" "+o.res+")")
 		rp = append(rp, map[string]any{"root": s.root.String(), "entity": s.entity, "locality": s.loc, "stop": s.stop, "k": s.k,
 			"emitted": len(o.emitted), "res": o.res})
 	}
 	var has []string
 	if tr != nil {
 		for _, n := range w.nodes {
-			has = append(has, "("+w.cidCoq(n.c)+", "+vh.Bool(tr.Has(n.c))+")")
+			has = append(has, "(cH "+w.cidArgs(n.c)+" "+vh.Bool(tr.Has(n.c))+")")
 		}
 	}
 	term := vh.App("CWalks", w.graphCoq(), tk, vh.Nat(fuel), vh.ListOf(specs, func(s walkSpec) string { return s.coq(w) }),
@@ -910,7 +911,7 @@ func TestC13(t *testing.T) {
 		"arbitrary cyclic link graphs; 1-3 walks share a MapTracker/cid.Set/BloomTracker/no tracker; some walks stopped by emit=false or cancellation; " +
 		"BloomTracker chains driven past growth steps. Non-trivial walk case = at least 4 emissions and at least one CID linked more than once; " +
 		"non-trivial Bloom case = at least one growth step. Distinct by the full case term.")
-	cs := vh.NewCases(e, "From V Require Import model.M_C13.", "case", "check_case", 100)
+	cs := vh.NewCases(e, "From V Require Import model.M_C13.", "case", "check_case", 250)
 	add := func(c caseOut, bucket string) {
 		cs.Add(c.term, c.replay)
 		st.Case(c.key, c.nontriv)
@@ -941,7 +942,7 @@ func TestC13(t *testing.T) {
 			}
 		}
 	}
-	nWalk := e.Pick(700, 12000)
+	nWalk := e.Pick(1500, 20000)
 	trackers := []string{"TMap", "TMap", "TMap", "TCidSet", "TBloom", "TNone"}
 	for i := 0; i < nWalk; i++ {
 		r := e.Rng
@@ -1012,10 +1013,5 @@ func TestC13(t *testing.T) {
 		bloomBig(t, e, st, 3)
 	}
 	cs.Close()
-	keys := make([]string, 0)
-	for k := range st.Distribution {
-		keys = append(keys, k)
-	}
-	sort.Strings(keys)
 	st.Write(e)
 }
